@@ -71,7 +71,7 @@ pub fn run(args: &Args) {
         200,
     );
     let miri = cfg!(miri);
-    let n_small = if miri { args.n(6, 20) } else { args.n(300, 5_000) };
+    let n_small = if miri { args.n(6, 20) } else { args.n(1_500, 10_000) };
     for i in 0..n_small {
         let mut rng = Rng::fork(args.seed, i);
         let len = 2 + rng.usize_below(5); // 2..=6
@@ -95,7 +95,7 @@ pub fn run(args: &Args) {
             rep.sample(json!({"initial": format!("{initial:?}"), "advances": format!("{advs:?}"), "permutations": permutations(len).len()}));
         }
     }
-    let n_long = if miri { args.n(4, 10) } else { args.n(2_000, 100_000) };
+    let n_long = if miri { args.n(4, 10) } else { args.n(10_000, 200_000) };
     for i in 0..n_long {
         let mut rng = Rng::fork(args.seed ^ 0xC07, i);
         let len = if miri { 30 } else { 20 + rng.usize_below(300) };
